@@ -8,7 +8,7 @@ BASE = os.path.join(WORK, 'base')
 COQ = os.path.join(ROOT, 'coq')
 GEN = os.path.join(ROOT, 'build', 'gen')
 ENV = dict(os.environ, GOFLAGS='-mod=mod', GOPROXY='off')
-W, S, M = 'internal/ergo/commands_work.go', 'internal/ergo/storage.go', 'internal/ergo/model.go'
+W, S, M, P = 'internal/ergo/commands_work.go', 'internal/ergo/storage.go', 'internal/ergo/model.go', 'internal/ergo/commands_plan.go'
 
 def rep(path, old, new, count=1):
     def f(files):
@@ -51,6 +51,11 @@ MUTS = [
  ('M31 claim section: second ready task chosen', rep(W, '		chosen = ready[0]\n', '		chosen = ready[len(ready)-1]\n')),
  ('M32 claim section: claims epics too', rep(W, 'ready := readyTasks(graph, epicID, kindTask)', 'ready := readyTasks(graph, epicID, kindAny)')),
  ('M33 isEpic: nil counts as epic', rep(M, 'func isEpic(task *Task) bool {\n	if task == nil {\n		return false\n	}', 'func isEpic(task *Task) bool {\n	if task == nil {\n		return true\n	}')),
+ ('M34 plan: pruned ids not reserved', rep(P, '		for id := range graph.Tombstones {\n			workingIDs[id] = nil\n		}\n', '')),
+ ('M35 plan: ids allocated in this plan not reserved', rep(P, '			workingIDs[taskID] = &Task{ID: taskID, EpicID: epicID}\n', '')),
+ ('M36 plan: duplicate edges kept', rep(P, '				if _, exists := seenEdges[edgeKey]; exists {\n					continue\n				}\n', '')),
+ ('M37 plan: task stamped with the epic clock reading', rep(P, '				CreatedAt: formatTime(taskNow),', '				CreatedAt: createdAt,')),
+ ('M38 plan: edge direction swapped', rep(P, '					FromID: fromID,\n					ToID:   toID,\n					Type:   dependsLinkType,\n				})\n				if err != nil', '					FromID: toID,\n					ToID:   fromID,\n					Type:   dependsLinkType,\n				})\n				if err != nil')),
  ('H01 harmless: local renamed (remainingUpdates -> rest)', lambda files: files.__setitem__(W, files[W].replace('remainingUpdates', 'rest'))),
  ('H02 harmless: error messages reworded', lambda files: files.__setitem__(W, files[W].replace('"title cannot be empty"', '"empty title"').replace('"epics do not have state"', '"no state on epics"'))),
  ('H03 harmless: comment added and blank lines', lambda files: files.__setitem__(S, files[S].replace('		now := time.Now().UTC()\n		payload := NewTaskEvent{', '		// stamp\n\n		now := time.Now().UTC()\n		payload := NewTaskEvent{'))),
@@ -66,7 +71,7 @@ def main():
     coq = os.path.join(WORK, 'coq')
     shutil.rmtree(coq, ignore_errors=True)
     shutil.copytree(COQ, coq)
-    base = {p: open(os.path.join(BASE, p)).read() for p in (W, S, M)}
+    base = {p: open(os.path.join(BASE, p)).read() for p in (W, S, M, P)}
     results = []
     for name, f in MUTS:
         if only and not any(name.startswith(o) for o in only):
